@@ -24,7 +24,15 @@ def _upd_append(vs, st):
     return (st or []) + list(vs)
 
 
-UPD = {'sum': _upd_sum, 'last': _upd_last, 'count': _upd_count, 'append': _upd_append}
+def _upd_extend(vs, st):
+    # list-append in its in-place spelling (legal in Spark, where the function gets a private copy of the state): a fold
+    # applies the function ONCE per key and interval, so extending the state it is handed must give the same lists
+    st = st or []
+    st.extend(vs)
+    return st
+
+
+UPD = {'sum': _upd_sum, 'last': _upd_last, 'count': _upd_count, 'append': _upd_append, 'extend': _upd_extend}
 
 
 class VirtualStreaming:
@@ -226,6 +234,8 @@ class C10(Prop):
                            'default': None}],
               'nodes': [{'kind': 'src', 'q': 0}, {'kind': 'state', 'prev': 0, 'upd': 'sum'}, {'kind': 'out', 'prev': 1},
                         {'kind': 'out', 'prev': 1}], 'ticks': 6}
+        # the in-place list-append with two consumers (the function must run once per key and interval)
+        st_ext = dict(st, nodes=[dict(n, upd='extend') if n['kind'] == 'state' else n for n in st['nodes']])
         allq = dict(diamond, sources=[{'queue': [[1, 2], [3], [4]], 'oneAtATime': False, 'default': [7]}])
         files = [{'kind': 'files', 'pre': ['a.txt'], 'between': ['b.txt'], 'ticks': [[], ['c.txt', 'd.txt'], []], 'process_all': pa}
                  for pa in (False, True)]
@@ -235,7 +245,7 @@ class C10(Prop):
         files += [dict(f, spell=sp) for f in files[:2] for sp in ('dir', 'dir/', 'file://dir')]
         rddq = [dict(diamond, sources=[{'queue': [[1, 2], [], [3]], 'oneAtATime': o, 'default': dflt, 'asRdd': True}])
                 for o in (True, False) for dflt in (None, [7])]
-        return [diamond, win, st, allq] + rddq + cbw + (files if self.focus == 'C10' else [])
+        return [diamond, win, st, st_ext, allq] + rddq + cbw + (files if self.focus == 'C10' else [])
 
     def nontrivial(self, case):
         if case.get('kind') == 'files':
